@@ -131,6 +131,26 @@ class VirtualFile(io.RawIOBase):
     def readall(self):
         return self.read(-1)
 
+    def readline(self, size=-1):
+        """Line-wise access as a buffered file would serve it: chunks of 64 KiB are fetched (and logged) until a newline shows up."""
+        self._note("readline")
+        start, out = self._pos, []
+        limit = self._size - start if size is None or size < 0 else min(size, self._size - start)
+        got = 0
+        while got < limit:
+            chunk = self.read(min(65536, limit - got))
+            if not chunk:
+                break
+            k = chunk.find(b"\n")
+            if k >= 0:
+                out.append(chunk[:k + 1])
+                got += k + 1
+                break
+            out.append(chunk)
+            got += len(chunk)
+        self._pos = start + got
+        return b"".join(out)
+
     def peek_bytes(self, off, n):
         """Harness-side access without logging."""
         return self._gen(off, max(0, min(n, self._size - off)))
